@@ -212,7 +212,7 @@ func LenOf(v ssa.Value) (ssa.Value, bool) {
 		return nil, false
 	}
 	b, ok := c.Call.Value.(*ssa.Builtin)
-	if !ok || b.Name() != "len" || len(c.Call.Args) != 1 {
+	if !ok || Ident(b.Name()) != "len" || len(c.Call.Args) != 1 {
 		return nil, false
 	}
 	return c.Call.Args[0], true
